@@ -64,7 +64,9 @@ type stats struct {
 	acc, rej, skipped int
 }
 
-func (s *stats) observe(x *engine.X) { x.Observe("accepted=", s.acc, " rejected=", s.rej, " skipped=", s.skipped) }
+func (s *stats) observe(x *engine.X) {
+	x.Observe("accepted=", s.acc, " rejected=", s.rej, " skipped=", s.skipped)
+}
 
 // safe runs f and converts a panic into a value.
 func safe[T any](f func() (T, error)) (v T, err error, pan any) {
